@@ -8,14 +8,16 @@ import (
 func c18Item(i int) *Item {
 	it := &Item{}
 	it.BlockNum = sym.U64("block-num")
-	if i > 0 && sym.Param("SMALLREST", 0) == 1 {
-		// only the first item ranges over every varint length (the second multiplies the paths otherwise)
+	small := (i > 0 && sym.Param("SMALLREST", 0) == 1) || sym.Param("SMALLALL", 0) == 1
+	if small {
+		// only the first item ranges over every varint length (the second multiplies the paths otherwise);
+		// SMALLALL: a configuration about the relations between items (equal block numbers, order, count)
 		sym.Assume(it.BlockNum < 128)
 	}
 	it.BlockId = sym.Str("block-id", sym.Param("IDLEN", 2))
 	it.Payload = sym.Bytes("payload", sym.Param("PAYLEN", 2))
 	it.Cursor = sym.Str("cursor", sym.Param("CURLEN", 1))
-	if !(i > 0 && sym.Param("SMALLREST", 0) == 1) && sym.Choice("has-timestamp", 2) == 1 {
+	if !small && sym.Choice("has-timestamp", 2) == 1 {
 		it.Timestamp = &timestamppb.Timestamp{Seconds: sym.I64("seconds"), Nanos: sym.I32("nanos")}
 	}
 	return it
